@@ -6,10 +6,10 @@ Level: proof RELATIVE to the AEAD hypotheses `BoxLaws` (correctness, ciphertext 
 `InnerCodec.Laws` (the inner JSON envelope reads back what was written, on the values it can serialise). They are
 hypotheses of the theorems; NaCl and the serializers are trusted, not verified. The tie to the code is harness/c20.py.
 
-`WireHasNoClearPayload` (the full statement) is FALSE for the code and for the model (U1): the invocation success path
-sends a plain YIELD when `encode` raises, and ERROR replies are sealed under the key selected by the *error* URI —
-not covered by per-prefix keys, so they travel in clear. Negation witnesses below; `_partial` assumes that `encode`
-succeeds and that a key covers the URI used for the lookup.
+`WireHasNoClearPayload` (the full statement) is a theorem with no hypothesis since the U1 repairs: the success path of an
+encrypted invocation sends a sealed YIELD or an ERROR with a fixed text (never the result), the error path sends a
+sealed ERROR, or — when no key covers the ERROR URI — the ERROR URI with a fixed text instead of the exception's
+arguments; when building the ERROR fails an ERROR with a fixed text is sent all the same (`error_reply_always_sent`).
 -/
 namespace Abverif.Cryptobox
 
@@ -90,26 +90,24 @@ theorem invocation_recovered (b : Box K N P C) (hb : BoxLaws b) (codec : InnerCo
   simp [onInvocation, receive_sealed_ok b hb codec hc ringB false proc a kw n k p hB hser]
 
 /-- YIELD → RESULT: the caller receives exactly the endpoint's result -/
-theorem result_recovered (b : Box K N P C) (hb : BoxLaws b) (codec : InnerCodec X Y P) (hc : codec.Laws)
+theorem result_recovered (b : Box K N P C) (hb : BoxLaws b) (codec : InnerCodec X Y P) (hc : codec.Laws) (t : Notes X)
     (ringA ringB : KeyRing K) (proc : Uri) (a : Option X) (kw : Option Y) (n : N) (k : K) (p : P)
     (hB : getBox ringB false proc = some k) (hA : getBox ringA true proc = some k)
     (hser : codec.ser { uri := some proc, args := a, kwargs := kw } = some p) :
-    let m := yieldMsg b codec (some ringB) true proc a kw n
-    m.args = none ∧ m.kwargs = none ∧ onResult b codec (some ringA) proc m = .result a kw := by
-  have hm : yieldMsg b codec (some ringB) true proc a kw n = sealedMsg (b.lock k n p) := by
-    simp [yieldMsg, encode, hB, hser]
-  simp only [hm]
-  refine ⟨rfl, rfl, ?_⟩
+    ∃ m, yieldReply b codec t (some ringB) true proc a kw n = .yield m ∧
+      m.args = none ∧ m.kwargs = none ∧ onResult b codec (some ringA) proc m = .result a kw := by
+  refine ⟨sealedMsg (b.lock k n p), by simp [yieldReply, encode, hB, hser], rfl, rfl, ?_⟩
   simp [onResult, receive_sealed_ok b hb codec hc ringA true proc a kw n k p hA hser]
 
-/-- ERROR → caller: the error's args/kwargs arrive exactly (when a key covers the error URI on both sides) -/
-theorem error_recovered (b : Box K N P C) (hb : BoxLaws b) (codec : InnerCodec X Y P) (hc : codec.Laws)
-    (ringA ringB : KeyRing K) (eu : Uri) (a : Option X) (kw : Option Y) (n : N) (k : K) (p : P)
+/-- ERROR → caller: the error's args/kwargs arrive exactly (when a key covers the error URI on both sides), whether or
+not the invocation was encrypted -/
+theorem error_recovered (b : Box K N P C) (hb : BoxLaws b) (codec : InnerCodec X Y P) (hc : codec.Laws) (t : Notes X)
+    (ringA ringB : KeyRing K) (enc : Bool) (eu : Uri) (a : Option X) (kw : Option Y) (n : N) (k : K) (p : P)
     (hB : getBox ringB false eu = some k) (hA : getBox ringA true eu = some k)
     (hser : codec.ser { uri := some eu, args := a, kwargs := kw } = some p) :
-    ∃ m, errorMsg b codec (some ringB) eu a kw n = .msg m ∧ m.args = none ∧ m.kwargs = none ∧
+    ∃ m, invocationErrorReply b codec t (some ringB) enc eu a kw n = .error eu m ∧ m.args = none ∧ m.kwargs = none ∧
       onError b codec (some ringA) eu m = .appError eu a kw := by
-  refine ⟨sealedMsg (b.lock k n p), by simp [errorMsg, encode, hB, hser], rfl, rfl, ?_⟩
+  refine ⟨sealedMsg (b.lock k n p), by simp [invocationErrorReply, errorMsg, encode, hB, hser], rfl, rfl, ?_⟩
   simp [onError, receive_sealed_ok b hb codec hc ringA true eu a kw n k p hA hser]
 
 /-- non-vacuity of the recovery theorems: concrete ring layouts with a matching default key -/
@@ -146,18 +144,23 @@ theorem sealed_shape (b : Box K N P C) (codec : InnerCodec X Y P) (s : Codec K) 
         rw [hs] at h; simp only [Sent.msg.injEq] at h; subst h
         exact ⟨rfl, rfl, rfl, ring, k, p, rfl, hk, rfl, rfl⟩
 
-/-- the full statement, for a session with an active key ring:
+/-- the full statement:
  (1) publish/call to a URI for which the ring holds an originator box never put args/kwargs on the wire;
- (2) the YIELD answering an encrypted INVOCATION carries no clear args/kwargs;
- (3) an ERROR reply carries no clear args/kwargs. -/
+ (2) the reply of the success path to an encrypted INVOCATION is a sealed YIELD without args/kwargs, or an ERROR whose
+     only content is the fixed text — for every payload codec state (key ring present or not, key found or not) and
+     every result, serialisable by the inner envelope or not;
+ (3) the reply of the error path to an encrypted INVOCATION is a sealed ERROR without args/kwargs, or an ERROR whose
+     only content is one of the two fixed texts — likewise for every codec state, ERROR URI and exception payload. -/
 def WireHasNoClearPayload (b : Box K N P C) (codec : InnerCodec X Y P) : Prop :=
   (∀ (ring : KeyRing K) u a kw n m, getBox ring true u ≠ none →
       originate b codec (some ring) u a kw n = .msg m → m.args = none ∧ m.kwargs = none) ∧
-  (∀ (ring : KeyRing K) proc a kw n,
-      (yieldMsg b codec (some ring) true proc a kw n).args = none ∧
-      (yieldMsg b codec (some ring) true proc a kw n).kwargs = none) ∧
-  (∀ (ring : KeyRing K) eu a kw n m,
-      errorMsg b codec (some ring) eu a kw n = .msg m → m.args = none ∧ m.kwargs = none)
+  (∀ (t : Notes X) (s : Codec K) proc a kw n,
+      (∃ c, yieldReply b codec t s true proc a kw n = .yield (sealedMsg c)) ∨
+      yieldReply b codec t s true proc a kw n = .error invalidPayloadUri (clearMsg (some t.resultNotEncrypted) none)) ∧
+  (∀ (t : Notes X) (s : Codec K) eu a kw n,
+      (∃ c, invocationErrorReply b codec t s true eu a kw n = .error eu (sealedMsg c)) ∨
+      invocationErrorReply b codec t s true eu a kw n = .error eu (clearMsg (some t.errorArgsNotSent) none) ∨
+      invocationErrorReply b codec t s true eu a kw n = .error invalidPayloadUri (clearMsg (some t.errorNotEncodable) none))
 
 /-- part (1) holds for all inputs: with a box for the URI, publish/call send a sealed message or raise -/
 theorem wire_has_no_clear_payload_originator (b : Box K N P C) (codec : InnerCodec X Y P) (ring : KeyRing K) (u : Uri)
@@ -173,36 +176,138 @@ theorem wire_has_no_clear_payload_originator (b : Box K N P C) (codec : InnerCod
     | none => rw [hs] at h; cases h
     | some p => rw [hs] at h; simp only [Sent.msg.injEq] at h; subst h; simp [sealedMsg]
 
-/-- parts (2) and (3) under "encode succeeds and a key covers the URI used for the lookup".
-Missing for the full statement: `encode` raising in the success path (plain YIELD), and ERROR URIs not covered by
-the responder's keys (clear ERROR) — both witnessed below. -/
-theorem wire_has_no_clear_payload_partial (b : Box K N P C) (codec : InnerCodec X Y P) (ring : KeyRing K) (u : Uri)
-    (a : Option X) (kw : Option Y) (n : N) (k : K) (p : P)
+/-- part (2): the result of an encrypted invocation leaves sealed or not at all — no hypothesis -/
+theorem yield_reply_sealed_or_refused (b : Box K N P C) (codec : InnerCodec X Y P) (t : Notes X) (s : Codec K) (proc : Uri)
+    (a : Option X) (kw : Option Y) (n : N) :
+    (∃ c, yieldReply b codec t s true proc a kw n = .yield (sealedMsg c)) ∨
+    yieldReply b codec t s true proc a kw n = .error invalidPayloadUri (clearMsg (some t.resultNotEncrypted) none) := by
+  unfold yieldReply
+  cases s with
+  | none => right; rfl
+  | some ring =>
+    cases he : encode b codec ring false proc a kw n with
+    | sealed c => left; exact ⟨c, by simp [he]⟩
+    | clear => right; simp [he]
+    | raised => right; simp [he]
+
+/-- part (3): the ERROR answering an encrypted invocation is sealed, or carries a fixed text — no hypothesis -/
+theorem error_reply_sealed_or_withheld (b : Box K N P C) (codec : InnerCodec X Y P) (t : Notes X) (s : Codec K) (eu : Uri)
+    (a : Option X) (kw : Option Y) (n : N) :
+    (∃ c, invocationErrorReply b codec t s true eu a kw n = .error eu (sealedMsg c)) ∨
+    invocationErrorReply b codec t s true eu a kw n = .error eu (clearMsg (some t.errorArgsNotSent) none) ∨
+    invocationErrorReply b codec t s true eu a kw n = .error invalidPayloadUri (clearMsg (some t.errorNotEncodable) none) := by
+  unfold invocationErrorReply errorMsg
+  cases s with
+  | none => right; left; rfl
+  | some ring =>
+    cases he : encode b codec ring false eu a kw n with
+    | sealed c => left; exact ⟨c, by simp [he]⟩
+    | clear => right; left; simp [he]
+    | raised => right; right; simp [he]
+
+/-- **No clear payload on the wire**, the full statement, for every box, inner codec, key ring and payload -/
+theorem wire_has_no_clear_payload (b : Box K N P C) (codec : InnerCodec X Y P) : WireHasNoClearPayload b codec :=
+  ⟨fun ring u a kw n m hk h => by
+      have := wire_has_no_clear_payload_originator b codec ring u a kw n m hk h
+      exact ⟨this.1, this.2.1⟩,
+   fun t s proc a kw n => yield_reply_sealed_or_refused b codec t s proc a kw n,
+   fun t s eu a kw n => error_reply_sealed_or_withheld b codec t s eu a kw n⟩
+
+/-- in the vocabulary of the message fields: what an encrypted invocation is answered with has no `kwargs`, and its
+`args` are absent (then a ciphertext is present) or one of the three fixed texts — which are parameters of the reply
+functions, not functions of the result / exception payload -/
+theorem reply_fields_carry_no_payload (b : Box K N P C) (codec : InnerCodec X Y P) (t : Notes X) (s : Codec K) (u : Uri)
+    (a : Option X) (kw : Option Y) (n : N) (r : Reply X Y C)
+    (hr : r = yieldReply b codec t s true u a kw n ∨ r = invocationErrorReply b codec t s true u a kw n) :
+    r.msg.kwargs = none ∧
+    ((r.msg.args = none ∧ r.msg.payload ≠ none) ∨
+     (r.msg.payload = none ∧ (r.msg.args = some t.resultNotEncrypted ∨ r.msg.args = some t.errorArgsNotSent ∨
+        r.msg.args = some t.errorNotEncodable))) := by
+  rcases hr with hr | hr
+  · rcases yield_reply_sealed_or_refused b codec t s u a kw n with ⟨c, h⟩ | h <;> rw [hr, h] <;>
+      simp [Reply.msg, sealedMsg, clearMsg]
+  · rcases error_reply_sealed_or_withheld b codec t s u a kw n with ⟨c, h⟩ | h | h <;> rw [hr, h] <;>
+      simp [Reply.msg, sealedMsg, clearMsg]
+
+/-- the error path always produces an ERROR (the last-resort reply when `_message_from_exception` raises), and the
+success path always produces a YIELD or an ERROR: every invocation is answered -/
+theorem error_reply_always_sent (b : Box K N P C) (codec : InnerCodec X Y P) (t : Notes X) (s : Codec K) (enc : Bool)
+    (eu : Uri) (a : Option X) (kw : Option Y) (n : N) :
+    ∃ u m, invocationErrorReply b codec t s enc eu a kw n = .error u m ∧
+      (u = eu ∨ (u = invalidPayloadUri ∧ errorMsg b codec t s enc eu a kw n = .raised)) := by
+  unfold invocationErrorReply
+  cases h : errorMsg b codec t s enc eu a kw n with
+  | msg m => exact ⟨eu, m, rfl, Or.inl rfl⟩
+  | raised => exact ⟨invalidPayloadUri, _, rfl, Or.inr ⟨rfl, rfl⟩⟩
+
+/-- the repairs change nothing for an invocation that was not encrypted: plain YIELD; ERROR keyed by the error URI,
+clear with the exception's arguments when no key covers it -/
+theorem unencrypted_invocation_unchanged (b : Box K N P C) (codec : InnerCodec X Y P) (t : Notes X) (s : Codec K) (u : Uri)
+    (a : Option X) (kw : Option Y) (n : N) :
+    yieldReply b codec t s false u a kw n = .yield (clearMsg a kw) ∧
+    (s = none → invocationErrorReply b codec t s false u a kw n = .error u (clearMsg a kw)) ∧
+    (∀ ring, s = some ring → getBox ring false u = none →
+        invocationErrorReply b codec t s false u a kw n = .error u (clearMsg a kw)) := by
+  refine ⟨by simp [yieldReply], fun h => by subst h; rfl, fun ring h hk => ?_⟩
+  subst h
+  simp [invocationErrorReply, errorMsg, encode, hk]
+
+/-- when a key covers the URI used for the lookup and the inner envelope can hold the payload, both replies are the
+sealed ones -/
+theorem reply_sealed_when_encodable (b : Box K N P C) (codec : InnerCodec X Y P) (t : Notes X) (ring : KeyRing K)
+    (enc : Bool) (u : Uri) (a : Option X) (kw : Option Y) (n : N) (k : K) (p : P)
     (hk : getBox ring false u = some k)
     (hser : codec.ser { uri := some u, args := a, kwargs := kw } = some p) :
-    yieldMsg b codec (some ring) true u a kw n = sealedMsg (b.lock k n p) ∧
-    errorMsg b codec (some ring) u a kw n = .msg (sealedMsg (b.lock k n p)) := by
-  simp [yieldMsg, errorMsg, encode, hk, hser]
+    yieldReply b codec t (some ring) true u a kw n = .yield (sealedMsg (b.lock k n p)) ∧
+    invocationErrorReply b codec t (some ring) enc u a kw n = .error u (sealedMsg (b.lock k n p)) := by
+  simp [yieldReply, invocationErrorReply, errorMsg, encode, hk, hser]
+
+/-- an ERROR that stands in for a result / for an exception's arguments reaches the caller as a failed call carrying
+the fixed text (as the generic application error or as the class mapped to the URI — `wamp.error.invalid_payload` is
+mapped to `SerializationError` by default): the call never resolves, and never with something other than that text -/
+theorem refusal_fails_the_call (b : Box K N P C) (codec : InnerCodec X Y P) (sA : Codec K) (mapped : Uri → Option String)
+    (ctorOk : String → Option X → Option Y → Bool) (u : Uri) (x : X) :
+    onErrorMapped b codec sA mapped ctorOk u (clearMsg (some x) none) = .appError u (some x) none ∨
+    ∃ c, onErrorMapped b codec sA mapped ctorOk u (clearMsg (some x) none) = .userError c (some x) none := by
+  simp only [onErrorMapped, receive, clearMsg]
+  cases mapped u with
+  | none => left; rfl
+  | some c =>
+    simp only
+    split
+    · right; exact ⟨c, rfl⟩
+    · left; rfl
 
 /-- per-prefix key ring of the U1 replay: one key for `com.secret`, no default -/
 def ringPrefix : KeyRing Nat :=
   { keys := [("com.secret".toList, { originatorBox := some 5, responderBox := some 5 })], default := none }
 
-/-- Negation witness (U1, first half): the endpoint's result cannot be serialised by the inner codec → plain YIELD. -/
-example : ¬ WireHasNoClearPayload (Toy.box Nat Nat (Inner Nat Nat)) (Toy.codec Nat Nat (fun a _ => a == some 13)) := by
-  intro h
-  have := (h.2.1 ringPrefix "com.secret.proc".toList (some 13) none 0).1
-  revert this
-  decide
+def toyNotes : Notes Nat := { resultNotEncrypted := 100, errorArgsNotSent := 101, errorNotEncodable := 102 }
 
-/-- Negation witness (U1, second half): the ERROR URI `wamp.error.runtime_error` is not under `com.secret` → clear ERROR. -/
-example : ¬ WireHasNoClearPayload (Toy.box Nat Nat (Inner Nat Nat)) (Toy.codec Nat Nat (fun _ _ => false)) := by
-  intro h
-  have := (h.2.2 ringPrefix "wamp.error.runtime_error".toList (some 42) none 0 (clearMsg (some 42) none) (by decide)).1
-  revert this
-  decide
+/-- the input of the former negation witness (U1, first half): the endpoint's result (13) cannot be serialised by the
+inner codec → now an ERROR with the fixed text, the 13 is nowhere in it -/
+example : yieldReply (Toy.box Nat Nat (Inner Nat Nat)) (Toy.codec Nat Nat (fun a _ => a == some 13)) toyNotes
+    (some ringPrefix) true "com.secret.proc".toList (some 13) none 0 =
+    .error invalidPayloadUri (clearMsg (some 100) none) := by decide
 
-/-- non-vacuity of `_partial`: the same ring, an ERROR URI under the prefix -/
+/-- the input of the former negation witness (U1, second half): the ERROR URI `wamp.error.runtime_error` is not under
+`com.secret` → now the ERROR URI with the fixed text, the 42 is nowhere in it; for an invocation that was not encrypted
+the same exception still travels with its arguments -/
+example : invocationErrorReply (Toy.box Nat Nat (Inner Nat Nat)) (Toy.codec Nat Nat (fun _ _ => false)) toyNotes
+    (some ringPrefix) true "wamp.error.runtime_error".toList (some 42) none 0 =
+    .error "wamp.error.runtime_error".toList (clearMsg (some 101) none) := by decide
+
+example : invocationErrorReply (Toy.box Nat Nat (Inner Nat Nat)) (Toy.codec Nat Nat (fun _ _ => false)) toyNotes
+    (some ringPrefix) false "wamp.error.runtime_error".toList (some 42) none 0 =
+    .error "wamp.error.runtime_error".toList (clearMsg (some 42) none) := by decide
+
+/-- the input of the finding `error-path:encode-raises:no-reply`: a covered ERROR URI, arguments the inner codec cannot
+serialise → the last-resort ERROR -/
+example : invocationErrorReply (Toy.box Nat Nat (Inner Nat Nat)) (Toy.codec Nat Nat (fun a _ => a == some 13)) toyNotes
+    (some ringPrefix) true "com.secret.error.bad".toList (some 13) none 0 =
+    .error invalidPayloadUri (clearMsg (some 102) none) := by decide
+
+/-- non-vacuity of `reply_sealed_when_encodable`: the same ring, an ERROR URI under the prefix -/
 example : getBox ringPrefix false "com.secret.error.bad".toList = some 5 := by decide
 
 /-! ### rejection -/
